@@ -70,10 +70,17 @@ def main(argv=None) -> int:
         syn = selftest.run_synthetic(mod, pid)
         extra['synthetic_positives'] = syn
         if args.tier == 'thorough':
-            extra['self_test'] = selftest.run_mutants(mod, pid, overlay, seed)
-            sw = selftest.run_sweep(mod, pid, overlay)
-            if sw:
-                extra['sensitivity_sweep'] = sw
+            try:
+                extra['self_test'] = selftest.run_mutants(mod, pid, overlay, seed)
+                sw = selftest.run_sweep(mod, pid, overlay)
+                if sw:
+                    extra['sensitivity_sweep'] = sw
+            except AnalysisError as e:
+                # the self-test compares against the reports of the tree as it is: on a tree that already violates the property a seeded
+                # edit may coincide with the reported violation.  The violation is what this run reports; the self-test is void.
+                if not split_known(pid, ctx.violations)[0]:
+                    raise
+                extra['self_test'] = {'void': 'tree already violates the property', 'detail': str(e)[:400]}
             if hasattr(mod, 'thorough'):
                 mod.thorough(ctx)
         new, known, _ = split_known(pid, ctx.violations)
